@@ -20,13 +20,14 @@ open Restic.Model.Filter
 
 inductive Node where
   | file (name : Str) (size : Nat)       -- regular file
-  | other (name : Str)                   -- symlink, device, fifo (neither directory nor regular file)
+  | other (name : Str) (socket : Bool)   -- symlink, device, fifo, socket (neither directory nor regular file);
+                                         -- sockets are never restored
   | dir (name : Str) (children : List Node)
 deriving Repr, BEq
 
 def Node.name : Node → Str
   | .file n _ => n
-  | .other n => n
+  | .other n _ => n
   | .dir n _ => n
 
 def Node.isDir : Node → Bool
@@ -61,6 +62,65 @@ def listOn (glob : Glob) (l : PatList) (checkChild : Bool) (names : List Str) : 
   | .ok r => r
   | _ => (false, false)
 
+/-! ### option collection: `ExcludePatternOptions.CollectPatterns` / `IncludePatternOptions.CollectPatterns` -/
+
+/-- `unicode.IsSpace` on ASCII -/
+def isSpace (c : Char) : Bool :=
+  c = ' ' || c = '\t' || c = '\n' || c = '\r' || c = Char.ofNat 11 || c = Char.ofNat 12
+
+/-- `strings.TrimSpace` -/
+def trimSpace (s : Str) : Str := ((s.dropWhile isSpace).reverse.dropWhile isSpace).reverse
+
+/-- `readPatternsFromFiles`: every line trimmed; empty lines and comment lines skipped
+    (`os.Expand` is the identity on lines without `$`; generated lines contain none) -/
+def readPatternLines (files : List (List Str)) : List Str :=
+  files.flatten.filterMap fun line =>
+    let t := trimSpace line
+    if t = [] then none else if t.head? = some '#' then none else some t
+
+/-- the four option slices of one kind (exclude or include) -/
+structure PatternOpts where
+  pats : List Str               -- --exclude / --include values
+  ipats : List Str              -- --iexclude / --iinclude values
+  files : List (List Str)       -- lines of every --exclude-file / --include-file, in order
+  ifiles : List (List Str)      -- lines of every --iexclude-file / --iinclude-file
+deriving Repr
+
+/-- `Empty()` -/
+def PatternOpts.isEmpty (o : PatternOpts) : Bool :=
+  o.pats.isEmpty && o.ipats.isEmpty && o.files.isEmpty && o.ifiles.isEmpty
+
+/-- `ValidatePatterns(patterns) == nil` -/
+def validateAll (clean : Str → Str) (glob : Glob) (raw : List Str) : Bool :=
+  match parsePatterns clean raw with
+  | .ok ps => ps.all (validPattern glob)
+  | _ => false
+
+def parsedOr (clean : Str → Str) (raw : List Str) : List Pattern :=
+  match parsePatterns clean raw with
+  | .ok ps => ps
+  | _ => []          -- impossible: `preparePattern` only fails on the empty string, which is skipped
+
+/-- case-sensitive patterns after `opts.Excludes = append(opts.Excludes, patternsFromFiles...)` -/
+def PatternOpts.sens (o : PatternOpts) : List Str :=
+  if o.files.isEmpty then o.pats else o.pats ++ readPatternLines o.files
+
+/-- case-insensitive patterns after `opts.InsensitiveExcludes = append(…, patternsFromIFiles...)` -/
+def PatternOpts.insens (o : PatternOpts) : List Str :=
+  if o.ifiles.isEmpty then o.ipats else o.ipats ++ readPatternLines o.ifiles
+
+/-- `CollectPatterns`: patterns from files are validated and appended to the list of THEIR kind
+    (case-sensitive files to `pats`, case-insensitive files to `ipats`), then each non-empty list is
+    validated and becomes one matching function; the insensitive one (patterns lower-cased) comes
+    first. `none` = Fatal error. -/
+def collectPatterns (clean : Str → Str) (glob : Glob) (o : PatternOpts) : Option (List PatList) :=
+  if !o.files.isEmpty && !validateAll clean glob (readPatternLines o.files) then none
+  else if !o.ifiles.isEmpty && !validateAll clean glob (readPatternLines o.ifiles) then none
+  else if !o.insens.isEmpty && !validateAll clean glob o.insens then none
+  else if !o.sens.isEmpty && !validateAll clean glob o.sens then none
+  else some ((if o.insens.isEmpty then [] else [⟨true, parsedOr clean (o.insens.map lowerStr)⟩]) ++
+             (if o.sens.isEmpty then [] else [⟨false, parsedOr clean o.sens⟩]))
+
 /-! ### C27: rewrite -/
 
 /-- `gatherExcludeFilters.exSelectByName` -/
@@ -94,8 +154,8 @@ def rwNode (sel : List Str → Bool → Bool) (keep : List Str → Bool) (names 
     Node → Stats → Option Node × Stats
   | .file n sz, st =>
     if sel (names ++ [n]) false then (some (.file n sz), ⟨st.count + 1, st.size + sz⟩) else (none, st)
-  | .other n, st =>
-    if sel (names ++ [n]) false then (some (.other n), st) else (none, st)
+  | .other n s, st =>
+    if sel (names ++ [n]) false then (some (.other n s), st) else (none, st)
   | .dir n ch, st =>
     if sel (names ++ [n]) true then
       -- newID := t.RewriteTree(path, subtree); null ID ⇒ continue
@@ -159,14 +219,15 @@ structure Entry where
   isDir : Bool
   isFile : Bool
   size : Nat
+  sock : Bool       -- a socket node (restore skips it, its name still protects a target entry from --delete)
 deriving DecidableEq, Repr
 
 mutual
 /-- the item of a node and everything below it -/
 def entriesNode (names : List Str) : Node → List Entry
-  | .file n sz => [⟨names ++ [n], false, true, sz⟩]
-  | .other n => [⟨names ++ [n], false, false, 0⟩]
-  | .dir n ch => ⟨names ++ [n], true, false, 0⟩ :: entriesList (names ++ [n]) ch
+  | .file n sz => [⟨names ++ [n], false, true, sz, false⟩]
+  | .other n s => [⟨names ++ [n], false, false, 0, s⟩]
+  | .dir n ch => ⟨names ++ [n], true, false, 0, false⟩ :: entriesList (names ++ [n]) ch
 /-- every item of a tree -/
 def entriesList (names : List Str) : List Node → List Entry
   | [] => []
@@ -179,14 +240,14 @@ def entries (names : List Str) (l : List Node) : List Entry := entriesList names
 theorem entries_nil (names : List Str) : entries names [] = [] := by
   simp [entries, entriesList]
 theorem entries_file (names : List Str) (n : Str) (sz : Nat) (rest : List Node) :
-    entries names (.file n sz :: rest) = ⟨names ++ [n], false, true, sz⟩ :: entries names rest := by
+    entries names (.file n sz :: rest) = ⟨names ++ [n], false, true, sz, false⟩ :: entries names rest := by
   simp [entries, entriesList, entriesNode]
-theorem entries_other (names : List Str) (n : Str) (rest : List Node) :
-    entries names (.other n :: rest) = ⟨names ++ [n], false, false, 0⟩ :: entries names rest := by
+theorem entries_other (names : List Str) (n : Str) (s : Bool) (rest : List Node) :
+    entries names (.other n s :: rest) = ⟨names ++ [n], false, false, 0, s⟩ :: entries names rest := by
   simp [entries, entriesList, entriesNode]
 theorem entries_dir (names : List Str) (n : Str) (ch rest : List Node) :
     entries names (.dir n ch :: rest) =
-      ⟨names ++ [n], true, false, 0⟩ :: (entries (names ++ [n]) ch ++ entries names rest) := by
+      ⟨names ++ [n], true, false, 0, false⟩ :: (entries (names ++ [n]) ch ++ entries names rest) := by
   simp [entries, entriesList, entriesNode]
 
 def isFileNode : Node → Bool
@@ -196,7 +257,7 @@ def isFileNode : Node → Bool
 mutual
 def filesNode (names : List Str) : Node → List (List Str × Nat)
   | .file n sz => [(names ++ [n], sz)]
-  | .other _ => []
+  | .other _ _ => []
   | .dir n ch => filesList (names ++ [n]) ch
 def filesList (names : List Str) : List Node → List (List Str × Nat)
   | [] => []
@@ -211,8 +272,8 @@ theorem files_nil (names : List Str) : files names [] = [] := by
 theorem files_file (names : List Str) (n : Str) (sz : Nat) (rest : List Node) :
     files names (.file n sz :: rest) = (names ++ [n], sz) :: files names rest := by
   simp [files, filesList, filesNode]
-theorem files_other (names : List Str) (n : Str) (rest : List Node) :
-    files names (.other n :: rest) = files names rest := by
+theorem files_other (names : List Str) (n : Str) (s : Bool) (rest : List Node) :
+    files names (.other n s :: rest) = files names rest := by
   simp [files, filesList, filesNode]
 theorem files_dir (names : List Str) (n : Str) (ch rest : List Node) :
     files names (.dir n ch :: rest) = files (names ++ [n]) ch ++ files names rest := by
@@ -266,6 +327,18 @@ def selectInclude (glob : Glob) (lists : List PatList) (names : List Str) (isDir
   let r := selectIncludeLoop glob names lists false false
   (r.1, r.2 && isDir)
 
+/-- option handling of `runRestore`: both kinds collected (Fatal on an invalid pattern), include and
+    exclude are mutually exclusive, without patterns everything is selected. `none` = Fatal. -/
+def restoreFilter (clean : Str → Str) (glob : Glob) (ex inc : PatternOpts) :
+    Option (List Str → Bool → Bool × Bool) :=
+  match collectPatterns clean glob ex, collectPatterns clean glob inc with
+  | some exL, some inL =>
+    if !exL.isEmpty && !inL.isEmpty then none
+    else if !exL.isEmpty then some (selectExclude glob exL)
+    else if !inL.isEmpty then some (selectInclude glob inL)
+    else some fun _ _ => (true, true)
+  | _, _ => none
+
 /-- what the visitor is told during one tree pass -/
 inductive Ev where
   | enter (p : List Str)                          -- enterDir (first pass: ensureDir)
@@ -279,7 +352,10 @@ mutual
     `hasRestored` -/
 def trNode (sel : List Str → Bool → Bool × Bool) (names : List Str) : Node → List Ev × Bool
   | .file n _ => if (sel (names ++ [n]) false).1 then ([.visit (names ++ [n]) true], true) else ([], false)
-  | .other n => if (sel (names ++ [n]) false).1 then ([.visit (names ++ [n]) false], true) else ([], false)
+  | .other n s =>
+    -- sockets cannot be restored: `continue` before SelectFilter (the name is already in `filenames`)
+    if s then ([], false)
+    else if (sel (names ++ [n]) false).1 then ([.visit (names ++ [n]) false], true) else ([], false)
   | .dir n ch =>
     let s := sel (names ++ [n]) true
     let evEnter := if s.1 then [Ev.enter (names ++ [n])] else []
@@ -313,7 +389,7 @@ mutual
 def dirListingsNode (names : List Str) : Node → List (List Str × List Str)
   | .dir n ch => (names ++ [n], ch.map Node.name) :: dirListingsList (names ++ [n]) ch
   | .file _ _ => []
-  | .other _ => []
+  | .other _ _ => []
 def dirListingsList (names : List Str) : List Node → List (List Str × List Str)
   | [] => []
   | c :: cs => dirListingsNode names c ++ dirListingsList names cs
@@ -375,15 +451,16 @@ def specRestoreOK (sel : List Str → Bool → Bool × Bool) (exclude : Bool) (r
     (target : List (List Str)) : Bool :=
   let es := entries [] root
   let want (e : Entry) : Bool :=
-    if exclude then (sel e.path e.isDir).1 && (ancestors e.path).all fun a => (sel a true).1
-    else (sel e.path e.isDir).1
+    !e.sock &&      -- sockets cannot be restored
+    (if exclude then (sel e.path e.isDir).1 && (ancestors e.path).all fun a => (sel a true).1
+     else (sel e.path e.isDir).1)
   let written := es.filter want
   es.all (fun e =>
     target.contains e.path == (want e || (e.isDir && written.any fun w => isPrefix e.path w.path))) &&
   target.all (fun p => p == [] || es.any fun e => e.path == p)
 
-/-- C20, `--delete` part: a pre-existing entry that is not part of the snapshot listing of its
-    (snapshot) directory is gone iff it — or the top-most non-snapshot directory holding it — is
+/-- C20, `--delete` part: a pre-existing entry whose path is part of the snapshot still exists
+    afterwards; one that is not part of the snapshot listing of its (snapshot) directory is gone iff it — or the top-most non-snapshot directory holding it — is
     selected; `full = true` demands this in every snapshot directory the traversal reaches,
     `full = false` only in directories that were left with `leaveDir` (something restored inside
     or the directory itself selected). -/
@@ -397,7 +474,7 @@ def specDeleteOK (sel : List Str → Bool → Bool × Bool) (root : List Node) (
     match ((List.range (e.length + 1)).filterMap fun k =>
         let q := e.take k
         if k > 0 ∧ !(es.any fun x => x.path == q) ∧ snapDirs.contains (e.take (k - 1)) then some q else none).head? with
-    | none => true        -- part of the snapshot (or below something that is not a directory there)
+    | none => target.contains e   -- part of the snapshot (sockets included): restore may replace it, never lose it
     | some top =>
       let parent := top.take (top.length - 1)
       let considered := if full then reachable sel top
